@@ -67,6 +67,10 @@ def _atoms_of_expr(e, S: Summary, P, func, cond_flag=None):
             return {"W"}
         if d == "get_variables" and e.args and dotted(e.args[0]) == S.roles["condition"]:
             return {"C"}
+        if d == "get_variables" and e.args and dotted(e.args[0]) == f"{S.roles['stmt']}.condition":
+            # the incoming statement still carries its default condition (True): the
+            # guard being built is in the local, so this contributes nothing
+            return set()
     if isinstance(e, ast.SetComp) and len(e.generators) == 1:
         g = e.generators[0]
         if dotted(g.iter) == "self._seen_var_names" and len(g.ifs) == 1 \
@@ -303,6 +307,7 @@ def _check_main(run, P):
     classes = stmtmodel.statement_classes(P)
     c08.reads_writes(run, P, classes, "C02.readsets", "C02.readsets")
     c08._flow(run, P, classes, "C02.readsets")
+    c08._written_whole(run, P, classes, "C02.readsets")
     from .c01 import _alias
     _alias(run, "C08.mapper", "C02.readsets", lambda: c08._mapper_config(run, P))
 
